@@ -320,7 +320,7 @@ func c18c(tp *tape.Tape) core.Result {
 	}
 	var stmts []string // top-level statements after the definitions; the last one's value is checked
 	var want string
-	tpl := tp.Draw(8)
+	tpl := tp.Draw(9)
 	key = key.Int(tpl).Int(w)
 	switch tpl {
 	case 0: // a generator yields a closure over its local; the consumer returns it out of the loop
@@ -362,6 +362,13 @@ func c18c(tp *tape.Tape) core.Result {
 		stmts = []string{fmt.Sprintf("outer(%d)", k), "{\n" + drawMid() + "\nouter(" + fmt.Sprint(k) + ")\n}"}
 		want = fmt.Sprint(k + 1)
 		r.Inc("C.closure_called_deeper", 1)
+	case 8: // locals reach the iterator only through function literals written inside the iterator expression
+		a, b := 2+tp.Draw(5), 2+tp.Draw(5)
+		defs = append(defs, fmt.Sprintf("lam = (k, n) -> {\n%ss = 0\nfor y <- map((e) -> e * k, () -> fromto(0, n)) {\ns = s + y\n}\nk = k + 1\nt = 0\nfor y <- map((e) -> e * k + n, () -> fromto(0, n)) {\nt = t + y\n}\n[s, t]\n}", pad(w)))
+		tri := func(n int) int { return n * (n - 1) / 2 }
+		stmts = []string{fmt.Sprintf("lam(%d, %d)", k, a), "{\n" + drawMid() + fmt.Sprintf("\n[lam(%d, %d), lam(%d, %d)]\n}", k, a, 3, b)}
+		want = fmt.Sprintf("[[%d, %d], [%d, %d]]", k*tri(a), (k+1)*tri(a)+a*a, 3*tri(b), 4*tri(b)+b*b)
+		r.Inc("C.locals_captured_by_literals_inside_iterator_expression", 1)
 	case 7: // closures yielded by a generator and kept by a top-level loop body (no return detaches them), used in later statements
 		defs = append(defs, "gk = (b) -> {\n"+pad(w)+"k = b * 10\nyield (x) -> x + k\nj = b * 100\nyield (x) -> x + j + k\n}")
 		stmts = []string{fmt.Sprintf("for kf <- gk(%d) {\nkeep = kf\n}", k), "keep(1)"}
